@@ -20,12 +20,20 @@ def run(tests, pid, repo, seed):
         failing, cmds, cases = [], [], 0
         for t in tests:
             cmd = 'cargo test --offline --features backend-mmap,backend-bitmap --test verif_search %s -- --nocapture --test-threads 1' % t
-            p = subprocess.run(cmd, shell=True, cwd=crate, capture_output=True, text=True, env=env, timeout=1800)
-            out = p.stdout + p.stderr
+            try:
+                p = subprocess.run('exec timeout -k 5 240 ' + cmd, shell=True, cwd=crate, capture_output=True, text=True, env=env, timeout=300)
+                out = p.stdout + p.stderr
+                if p.returncode == 124:
+                    raise subprocess.TimeoutExpired(cmd, 240)
+            except subprocess.TimeoutExpired:
+                failing.append(dict(property='C07', input='native search %s did not finish within 240 s on this tree (it takes seconds on the unchanged tree): some operation with an extreme argument does not return' % t, found_by=t))
+                cmds.append(cmd)
+                continue
             cmds.append(cmd)
             cases += sum(int(x) for x in re.findall(r'CASES (\d+)', out))
-            for prop, msg in re.findall(r'FAILING-INPUT: (C\d\d) (.*)', out):
-                failing.append(dict(property=prop, input=msg, found_by=t))
+            for props_, msg in re.findall(r'FAILING-INPUT: ((?:C\d\d,?)+) (.*)', out):
+                for prop in props_.split(','):
+                    failing.append(dict(property=prop, input=msg, found_by=t))
             if 'test result:' not in out:
                 failing.append(dict(property='?', input='search did not run: ' + out[-300:], found_by=t, infrastructure=True))
         rel = [f for f in failing if f['property'] == pid]
